@@ -4,10 +4,7 @@ import abci "github.com/cometbft/cometbft/abci/types"
 
 var _ abci.Event
 
-func (e *execState) checkHooksBlock(bo *blockObs, br BlockResult, fx BlockEffects, halted bool) {}
 func (e *execState) checkWriteSets(bo *blockObs)                                              {}
-func (e *execState) joinExport(bo *blockObs)                                                  {}
-func (e *execState) joinedBlock(bo *blockObs, txs [][]byte)                                   {}
 
 type linRecorder struct{}
 
